@@ -64,7 +64,7 @@ def required(tier):
     b.update({f'amode:{k}': 100 for k in AMODES})
     b.update({f'asize:{k}': 100 for k in ASIZES})
     b.update({'array:partition-mode': 800, 'array:ragged-expected': 100, 'array:uniform-expected': 300,
-              'array:empty-expected': 10, 'array:nonsquare-tiles': 300, 'fil:output-dir-already-populated': 50, 'input-path-rewritten': 200})
+              'array:empty-expected': 10, 'array:nonsquare-tiles': 300, 'fil:output-dir-already-populated': 50, 'input-path-rewritten': 200, 'piece-used-again-after-a-frame-was-built': 300})
     return {'buckets': b, 'counters': {'pieces_compared': 10000, 'frames_built': 1000, 'files_loaded': 500,
                                        'tiles_compared': 5000},
             'checks': 20000, 'nontrivial': 1000}
@@ -490,6 +490,14 @@ def run_file(c, R, stg):
             if ok:
                 for i in _subset(rng, n):
                     _check_frame(R, stg, ref, i, pieces[i], 'frame')
+                    # the piece is still the i-th piece after a frame was made from it (its data, and a second frame from it)
+                    R.bucket('piece-used-again-after-a-frame-was-built')
+                    d = np.asarray(pieces[i].data)
+                    if d.ndim == 3 and d.shape[1] == 1:
+                        _check_block(R, ref, i, d[:, 0, :], 'piece-after-frame')
+                    else:
+                        R.violate('piece-after-frame-layout', piece=i, shape=list(d.shape))
+                    _check_frame(R, stg, ref, i, pieces[i], 'second-frame-from-piece')
             R.mark_nontrivial(n >= 1)
         elif kind == 'fil':
             od = pathlib.Path(outdir) if c['outdir_path'] else outdir
